@@ -942,6 +942,29 @@ func runC11(c *Ctx) {
 			}
 		}
 	}
+	// calls that the BASE refuses because a name on the way is a regular file there (ENOTDIR) while
+	// the cache layer, which holds less, would accept them: nothing may change in the layer either
+	nb := 0
+	for _, stack := range cacheStacks {
+		for _, call := range []string{"Rename 2f66 2f672f78", "Rename 2f66 2f672f782f79", "Mkdir 2f672f64 493", "MkdirAll 2f672f642f65 493", "Create 2f672f6e", "OpenFile 2f672f6e 66 420", "Rename 2f642f68 2f672f68"} {
+			for _, cached := range []bool{true, false} {
+				items := []string{"0 9 Create 2f66", "0 - HWrite 9 68656c6c6f", "0 - HClose 9", "0 8 Create 2f67", "0 - HWrite 8 67", "0 - HClose 8",
+					"0 - Mkdir 2f64 493", "0 7 Create 2f642f68", "0 - HWrite 7 68", "0 - HClose 7",
+					"0 - Chtimes 2f66 1000000000", "0 - Chtimes 2f67 1000000000", "0 - Chtimes 2f642f68 1000000000", "0 - Chtimes 2f64 1000000000", "0 - Chtimes 2f 1000000000"}
+				if cached { // /f and /d/h are cached, /g (the regular file in the way) is not
+					items = append(items, "1 6 Create 2f66", "1 - HWrite 6 68656c6c6f", "1 - HClose 6", "1 - Chtimes 2f66 1000000000",
+						"1 - Mkdir 2f64 493", "1 5 Create 2f642f68", "1 - HWrite 5 68", "1 - HClose 5", "1 - Chtimes 2f642f68 1000000000", "1 - Chtimes 2f64 1000000000", "1 - Chtimes 2f 1000000000")
+				}
+				slot := "-"
+				if strings.HasPrefix(call, "Create") || strings.HasPrefix(call, "OpenFile") {
+					slot = "0"
+				}
+				items = append(items, ". "+slot+" "+call, ". - Stat 2f66", ". - Stat 2f67", "snap 0", "snap 1")
+				c11Case(c, fmt.Sprintf("bf%d", nb), stack, items)
+				nb++
+			}
+		}
+	}
 	c.Extra["flag_sweep"] = fmt.Sprintf("%d cases: OpenFile through the cache with every combination of O_WRONLY/O_RDWR/O_CREATE/O_EXCL/O_TRUNC/O_APPEND on a cached file, a file only in the base, a new name", nf)
 	// single calls through the cache on a tree (/d, /d/f, /g) that only the base has, that is partly cached (/g), fully cached
 	nm := 0
